@@ -87,6 +87,61 @@ def _check_ring_pos(cfg, ht, pos):
   return ok
 
 
+_REMOVED = {}
+
+
+def _router_without(cfg, ht, x):
+  key = (cfg, ht, x)
+  if key not in _REMOVED:
+    r = routers.ConsistentHashingRouter(_Settings(1, False, HASH_TYPES[ht]))
+    for d in DEST_SETS[cfg]:
+      r.addDestination(d)
+    r.removeDestination(DEST_SETS[cfg][x])
+    _REMOVED[key] = r
+  return _REMOVED[key]
+
+
+for _c in (2, 3, 5):
+  for _h in range(len(HASH_TYPES)):
+    for _x in range(len(DEST_SETS[_c])):
+      _router_without(_c, _h, _x)
+
+
+def _check_after_remove(cfg, ht, x, pos):
+  cfg, ht, x = int(cfg), int(ht), int(x)          # fixed by the shard precondition: realise once
+  dests = [d for i, d in enumerate(DEST_SETS[cfg]) if i != x]
+  r = _router_without(cfg, ht, x)
+  ring = r.ring
+  old = (r.replication_factor, r.diverse_replicas)
+  ring.compute_ring_position = lambda key: pos
+  ok = True
+  try:
+    for rf in (4, 1, 2, 3):
+      for diverse in (False, True):
+        r.replication_factor, r.diverse_replicas = rf, diverse
+        if not _well_formed(list(r.getDestinations('some.metric')), dests, rf, diverse):
+          ok = False
+  finally:
+    del ring.compute_ring_position
+    r.replication_factor, r.diverse_replicas = old
+  return ok
+
+
+def C05_after_remove(cfg: int, ht: int, x: int, pos: int) -> bool:
+  """
+  pre: 0 <= pos < 65536
+  post: __return__
+  """
+  # the replica set is well-formed with respect to the CURRENT destination set after a destination left
+  ok = _check_after_remove(cfg, ht, x, pos)
+  cover('walked')
+  return ok
+
+
+def replay_after_remove(cfg, ht, x, pos):
+  return _check_after_remove(cfg, ht, x, pos)
+
+
 def C05_ring_pos(cfg: int, ht: int, pos: int) -> bool:
   """
   pre: 0 <= pos < 65536
@@ -213,6 +268,20 @@ def C05_fast(n_nodes: int, h0: int, h1: int, h2: int, h3: int, hk: int) -> bool:
   return ok
 
 
+def _rm_shards(cfgs, gaps_per_shard):
+  out = []
+  for c in cfgs:
+    for h in range(len(HASH_TYPES)):
+      for x in range(len(DEST_SETS[c])):
+        positions = sorted(set(p for p, _ in _router_without(c, h, x).ring.ring))
+        cuts = [0] + [positions[i] + 1 for i in range(gaps_per_shard - 1, len(positions) - 1, gaps_per_shard)] + [65536]
+        cuts = sorted(set(min(v, 65536) for v in cuts))
+        for k in range(len(cuts) - 1):
+          out.append(('cfg%d_%s_x%d_%d' % (c, HASH_TYPES[h], x, k),
+                      'cfg == %d and ht == %d and x == %d and %d <= pos < %d' % (c, h, x, cuts[k], cuts[k + 1])))
+  return out
+
+
 def _shards(cfgs, gaps_per_shard):
   """Position ranges holding ~gaps_per_shard ring entries each (read from the real ring tables)."""
   out = []
@@ -238,6 +307,10 @@ HARNESSES = [
                  'the key position is a symbolic int over ALL of [0,65536) (compute_ring_position stubbed at lookup)',
                  'destination sets: the fixed family DEST_SETS (1..8 destinations, several instances per server); '
                  'replication factor 1..4 and DIVERSE_REPLICAS both values are enumerated inside every path']),
+  H('C05_after_remove', quick=dict(timeout=200, shards=[sh for sh in _rm_shards([2], 25) if sh[0].endswith(('_0', '_4'))]), thorough=dict(timeout=600, shards=_rm_shards([2, 3, 5], 40)),
+    covers=['walked'], replay='replay_after_remove',
+    encodes=['carbon.routers:ConsistentHashingRouter.removeDestination', 'carbon.routers:ConsistentHashingRouter.getDestinations', 'carbon.hashing:ConsistentHashRing.remove_node'],
+    assumptions=['routers built by real addDestination calls followed by one removeDestination (each destination in turn); every ring position symbolic (quick: two position ranges of ~25 ring entries per removed destination; thorough: the whole ring); RF 1..4 and DIVERSE both enumerated inside each path']),
   H('C05_walk_small', quick=dict(timeout=240, shards=[('n1', 'n_nodes == 1'), ('n2', 'n_nodes == 2')]),
     thorough=dict(timeout=1500, shards=[('n1', 'n_nodes == 1'), ('n2', 'n_nodes == 2'), ('n3', 'n_nodes == 3')]),
     covers=['looked_up'],
